@@ -140,14 +140,51 @@ def run_impl(spec, ops):
         return dict(ctor_err=cerr, obs=[])
     if spec["kind"] == "l2" and spec.get("force_mode") is not None:
         b.charge_calculation = spec["force_mode"]        # attribute reassigned after construction
-    return dict(ctor_err=None, obs=run_ops(b, ops, spec.get("dtype"))[1])
+    originals = []
+    if spec.get("copy_first"):
+        # the object under test is a deep copy of the constructed one (made before any call)
+        originals.append((b, fnum(b._current_charge), fnum(b._current_charging_power)))
+        b = deep_copy(b, spec["copy_first"])
+    out = dict(ctor_err=None, obs=run_ops(b, ops, spec.get("dtype"), originals)[1])
+    out["max_charging_power"] = fnum(b.max_charging_power) if hasattr(b, "max_charging_power") else None
+    # objects that were copied from must not have been touched by what happened to their copies
+    out["originals_untouched"] = all(fnum(o._current_charge) == c and fnum(o._current_charging_power) == p
+                                     for o, c, p in originals)
+    return out
 
 
-def run_ops(b, ops, dt=None):
-    """apply ops to the object (('json',) replaces it by its JSON round trip); returns (final object, obs list)"""
+def deep_copy(b, how="battery"):
+    """copy.deepcopy of the battery itself, of an EV holding it, or of a list of EVs (what Simulator.get_active_evs and
+    user code do); returns the copied battery"""
+    import copy
+    if how == "battery":
+        return copy.deepcopy(b)
+    from acnportal.acnsim.models import EV
+    ev = EV(0, 10, 20, "S", "sess", b)
+    if how == "ev":
+        return copy.deepcopy(ev)._battery
+    other = EV(0, 5, 3, "T", "sess2", copy.deepcopy(b))
+    return copy.deepcopy([other, ev, ev])[1]._battery
+
+
+def run_ops(b, ops, dt=None, originals=None):
+    """apply ops to the object (('json',) replaces it by its JSON round trip, ('copy', how) by a deep copy);
+    returns (final object, obs list).  originals: list collecting (object, charge, power) of every copied-from object"""
     obs = []
     for op in ops:
-        if op[0] == "json":
+        if op[0] == "copy":
+            err = None
+            try:
+                with warnings.catch_warnings():
+                    warnings.simplefilter("ignore")
+                    c = deep_copy(b, op[1] if len(op) > 1 else "battery")
+                if originals is not None:
+                    originals.append((b, fnum(b._current_charge), fnum(b._current_charging_power)))
+                b = c
+            except Exception as e:  # noqa
+                err = type(e).__name__
+            obs.append(observe(b, err, 0))
+        elif op[0] == "json":
             err = None
             try:
                 with warnings.catch_warnings():
@@ -168,6 +205,10 @@ def run_pair(spec_a, ops_a, spec_b, ops_b, order):
     b, eb = construct(spec_b)
     if a is None or b is None:
         return run_impl(spec_a, ops_a), run_impl(spec_b, ops_b)
+    if spec_a.get("copy_first"):
+        a = deep_copy(a, spec_a["copy_first"])
+    if spec_b.get("copy_first"):
+        b = deep_copy(b, spec_b["copy_first"])
     objs, opss, obs, pos = [a, b], [list(ops_a), list(ops_b)], [[], []], [0, 0]
     dts = [spec_a.get("dtype"), spec_b.get("dtype")]
     seq = list(order) + [0] * len(ops_a) + [1] * len(ops_b)
@@ -197,8 +238,8 @@ def batt_coq(spec):
 
 
 def op_coq(op):
-    if op[0] == "json":
-        return "Roundtrip"
+    if op[0] in ("json", "copy"):
+        return "Roundtrip"           # JSON round trip / deep copy: the identity on the modelled state
     if op[0] == "charge":
         _, pilot, V, T, noise = op
         return "(Charge %s %s %s %s %s)" % (q(pilot), q(V), q(T), q(noise), q(noise))
